@@ -133,7 +133,7 @@ func c11gen(r *rand.Rand) []c11op {
 		case x < 76:
 			p = append(p, c11op{Op: "getC", K: k})
 		case x < 84:
-			p = append(p, c11op{Op: "header", N: []int{200, 302, 404, 500, 200, 302, 100, 101, 103}[r.Intn(9)]}) // incl. informational codes and 101
+			p = append(p, c11op{Op: "header", N: []int{200, 302, 404, 500, 200, 304, 204, 100, 101, 103}[r.Intn(10)]}) // incl. informational codes and 101
 		case x < 90:
 			p = append(p, c11op{Op: "write", N: r.Intn(64)})
 		case x < 93:
@@ -160,6 +160,7 @@ func c11run(prog []c11op, sessStart, cookStart c11state, failS, failC bool) (*c1
 	ab.Config.Storage.SessionState = &c11store{l: l, kind: "sessWrite", start: sessStart, fail: failS}
 	ab.Config.Storage.CookieState = &c11store{l: l, kind: "cookWrite", start: cookStart, fail: failC}
 	var gets []c11get
+	nested := len(prog) > 0 && prog[0].Op == "nested"
 	h := ab.LoadClientStateMiddleware(http.HandlerFunc(func(w http.ResponseWriter, r *http.Request) {
 		for _, o := range prog {
 			switch o.Op {
@@ -219,6 +220,14 @@ func c11run(prog []c11op, sessStart, cookStart c11state, failS, failC bool) (*c1
 				pan = fmt.Sprint(p)
 			}
 		}()
+		if nested {
+			// another instance's client-state middleware directly around this one (a site with an admin
+			// area that runs its own Authboss instance): that instance's stores are none of our business
+			outer := authboss.New()
+			outer.Config.Storage.SessionState = &c11store{l: l, kind: "outerSessWrite", start: c11state{"uid": "outer-user"}}
+			outer.Config.Storage.CookieState = &c11store{l: l, kind: "outerCookWrite", start: c11state{"rm": "outer-cookie"}}
+			h = outer.LoadClientStateMiddleware(h)
+		}
 		h.ServeHTTP(&c11base{l: l, h: http.Header{}}, httptest.NewRequest("GET", "/x", nil))
 	}()
 	return l, gets, pan
@@ -285,6 +294,11 @@ func c11check(prog []c11op, l *c11log, gets []c11get, sessStart, cookStart c11st
 			if firstBase == 0 {
 				firstBase = e.Seq
 			}
+		}
+	}
+	for _, e := range l.entries {
+		if (e.Kind == "outerSessWrite" || e.Kind == "outerCookWrite") && len(e.Evs) > 0 {
+			return "delivered-to-another-instances-store", fmt.Sprintf("%s received %d events", e.Kind, len(e.Evs))
 		}
 	}
 	if len(gotS) > 1 {
@@ -361,6 +375,10 @@ func c11Unit(c *RunCtx, unit int) {
 	c.Stats.Histories++
 	for i := 0; i < n; i++ {
 		prog := c11gen(r)
+		if r.Intn(5) == 0 {
+			prog = append([]c11op{{Op: "nested"}}, prog...) // run behind a second instance's middleware
+			c.Stats.Count("programs-nested-in-another-instance")
+		}
 		ss, cs := c11state{}, c11state{}
 		for _, k := range c11keys {
 			if r.Intn(3) == 0 {
@@ -441,7 +459,7 @@ func min(a, b int) int {
 func init() {
 	register(&Check{
 		ID: "C11", Level: "exploration",
-		Rule:  "random handler programs (0-25 operations over putS/delS/delAllS/putC/delC/getS/getC/WriteHeader (final codes, 100/103 informational, 101)/Write/io.Copy (the base writer implements io.ReaderFrom like net/http's) and nesting the writer in wrappers exposing UnderlyingResponseWriter() or Unwrap(), depth <= 4; in 1/6 of the programs one of the stores fails its first WriteState and the handler recovers and carries on) executed by a handler behind the real LoadClientStateMiddleware with two recording stores and a recording base writer sharing one sequence counter. Offline checker over the log: each store receives <= 1 delivery, exactly the operations made for it before the first write, same order/keys/values, never the other store's; every delivery precedes the first header or body byte released to the base writer; operations after the first write are never delivered; every read returns the request-start value whatever was put earlier. distinct_nontrivial = distinct program shapes (#ops, #ops before first write, #writes, wrapper depth, kind of first write).",
+		Rule:  "random handler programs (0-25 operations over putS/delS/delAllS/putC/delC/getS/getC/WriteHeader (final codes, 100/103 informational, 101)/Write/io.Copy (the base writer implements io.ReaderFrom like net/http's) and nesting the writer in wrappers exposing UnderlyingResponseWriter() or Unwrap(), depth <= 4; one program in five runs directly inside a second Authboss instance's LoadClientStateMiddleware, whose stores must receive nothing; in 1/6 of the programs one of the stores fails its first WriteState and the handler recovers and carries on) executed by a handler behind the real LoadClientStateMiddleware with two recording stores and a recording base writer sharing one sequence counter. Offline checker over the log: each store receives <= 1 delivery, exactly the operations made for it before the first write, same order/keys/values, never the other store's; every delivery precedes the first header or body byte released to the base writer; operations after the first write are never delivered; every read returns the request-start value whatever was put earlier. distinct_nontrivial = distinct program shapes (#ops, #ops before first write, #writes, wrapper depth, kind of first write).",
 		Units: func(t string) int { return tierN(t, 64, 256) },
 		Run:   c11Unit,
 		Floors: func(t string) map[string]int {
